@@ -13,7 +13,7 @@ import (
 	"testing"
 )
 
-const gridDoc = `{"people":[{"name":"b","age":2,"tags":["y","x"]},{"name":"a","age":3,"tags":[]},{"name":"c","age":1,"tags":["z"]},null],"nums":[3,1,2,null,0],"strs":["b","a"],"lists":[[2,1],[3],[],[5,4,6]],"o1":{"k":[2,1],"j":[1]},"missing":null}`
+const gridDoc = `{"people":[null,{"name":"b","age":2,"tags":["y","x"]},{"name":"a","age":3,"tags":[]},null,{"name":"c","age":1,"tags":["z"]},null],"nums":[3,1,2,null,0],"strs":["b","a"],"lists":[[2,1],[3],[],[5,4,6]],"o1":{"k":[2,1],"j":[1]},"missing":null}`
 
 var gridObjSrc = []string{"people", "`[{\"name\":\"b\",\"age\":2,\"tags\":[\"y\",\"x\"]},{\"name\":\"a\",\"age\":3,\"tags\":[]},null,{\"name\":\"c\",\"age\":1,\"tags\":[\"z\"]}]`"}
 var gridNumSrc = []string{"nums", "`[3,1,null,2,0]`", "lists[3]", "o1.k"}
@@ -23,10 +23,13 @@ var gridPass = []string{"%s", "(%s)", "to_array(%s)", "not_null(%s)", "not_null(
 	"[%s][0]", "[`0`, %s][1]", "{a: %s}.a", "(@ | %s)", "[%s][*][0]", "[%s][] | @", "values({a: %s})[0]", "map(&@, [%s])[0]", "merge({a: %s}).a", "[%s, `[]`][?@][0]", "[%s][::-1][0]", "reverse([%s])[0]", "sort_by([%s], &length(@))[0]"}
 
 var gridObjUse = []string{"%s[*].name", "%s[*].tags[]", "%s[].name", "%s[?age > `1`].name", "%s[1:].name", "%s[::-1][0].name", "%s[*]", "%s[]", "%s[?name]", "%s[:2]", "sort_by(%s[?name], &name)[*].name", "%s[?name] | sort_by(@, &age) | [0].name",
-	"map(&name, %s)", "%s[*].[name]", "%s[*].{n: name}", "reverse(%s)[0].name", "max_by(%s[?age], &age).name", "%s[*].tags | [0]", "%s[?tags].tags[::-1]", "[%s[*].name, %s[0].name]", "%s[*].name | [@, @]", "length(%s)", "%s[0].tags[*]"}
+	"map(&name, %s)", "%s[*].[name]", "%s[*].{n: name}", "reverse(%s)[0].name", "max_by(%s[?age], &age).name", "%s[*].tags | [0]", "%s[?tags].tags[::-1]", "[%s[*].name, %s[0].name]", "%s[*].name | [@, @]", "length(%s)", "%s[1].tags[*]",
+	// by-expression functions straight on the array with its null elements (error paths touch the argument too)
+	"max_by(%s, &age)", "min_by(%s, &name)", "sort_by(%s, &age)", "max_by(%s, &not_null(age, `0`)).name", "min_by(%s, &not_null(name, 'zz')).age", "sort_by(%s, &not_null(age, `0`))[*].name", "map(&age, %s)", "%s[?@ == null]"}
 
 var gridNumUse = []string{"sort(%s[?@ || @ == `0`])", "%s[*]", "%s[*].abs(@)", "reverse(%s)", "%s[?@ > `1`]", "%s[]", "%s[1:]", "%s[::-1]", "%s[::2]", "%s | [?@ != null] | sort(@) | [0]", "[%s[*], %s[0]]", "map(&type(@), %s)", "%s[*].[@]", "%s[?@ == `0` || @][*].to_string(@)",
-	"sort_by(%s[?type(@) == 'number'], &@)", "max_by(%s[?type(@) == 'number'], &@)", "contains(%s, `2`)", "to_array(%s)[*].not_null(@, `9`)", "not_null(%s)[1:][*]"}
+	"sort_by(%s[?type(@) == 'number'], &@)", "max_by(%s[?type(@) == 'number'], &@)", "contains(%s, `2`)", "to_array(%s)[*].not_null(@, `9`)", "not_null(%s)[1:][*]",
+	"max_by(%s, &@)", "min_by(%s, &@)", "sort_by(%s, &@)", "max_by(%s, &not_null(@, `-1`))", "min_by(%s, &not_null(@, `99`))", "sort_by(%s, &not_null(@, `1`))", "sort(%s)", "max(%s)", "sum(%s)", "avg(%s)", "join(',', %s)"}
 
 type gridCell struct{ prod, use string }
 
